@@ -166,8 +166,10 @@ Definition contains_marked (v : value) : bool := match deep_marks (vp v) with []
 Definition unmark_deep (v : value) : value * list mark := (V (vty v) (strip_marks (vp v)), deep_marks (vp v)).
 
 (* ---------- basic predicates (integration methods) ---------- *)
-Definition is_known (v : value) : bool := match vp (unmark_force v) with PUnk _ => false | _ => true end.
-Definition is_null (v : value) : bool := match vp (unmark_force v) with PNull => true | _ => false end.
+(* IsKnown / IsNull look through markers (recursively, as the Go methods do) *)
+Fixpoint top_payload (p : payload) : payload := match p with PMarked _ p' => top_payload p' | _ => p end.
+Definition is_known (v : value) : bool := match top_payload (vp v) with PUnk _ => false | _ => true end.
+Definition is_null (v : value) : bool := match top_payload (vp v) with PNull => true | _ => false end.
 Definition p_is_unk (p : payload) : bool := match p with PUnk _ => true | _ => false end.
 
 (* the members of a set in bucket order (before the sort by Less) *)
